@@ -265,7 +265,7 @@ func ErrReturn(info *types.Info, body ast.Node, ret *ast.ReturnStmt) bool {
 	return nonNilErr(info, body, ret, ret.Results[len(ret.Results)-1])
 }
 
-func nonNilErr(info *types.Info, body ast.Node, ret *ast.ReturnStmt, e ast.Expr) bool {
+func nonNilErr(info *types.Info, body ast.Node, ret ast.Node, e ast.Expr) bool {
 	e = ast.Unparen(e)
 	tv, ok := info.Types[e]
 	if !ok || !cfgq.IsErrorType(tv.Type) {
@@ -298,7 +298,7 @@ func nonNilErr(info *types.Info, body ast.Node, ret *ast.ReturnStmt, e ast.Expr)
 }
 
 // guardedNonNil: ret lies in the then-arm of an if whose condition implies e != nil.
-func guardedNonNil(info *types.Info, body ast.Node, ret *ast.ReturnStmt, e ast.Expr) bool {
+func guardedNonNil(info *types.Info, body ast.Node, ret ast.Node, e ast.Expr) bool {
 	path := core.PathTo(body, ret)
 	for i := len(path) - 1; i > 0; i-- {
 		ifs, ok := path[i-1].(*ast.IfStmt)
@@ -519,6 +519,13 @@ type Step struct {
 // otherwise a description; undecided is set when a step cannot be located
 // uniquely (the construct is not the recognised idiom).
 func Sequence(g *cfgq.Graph, steps []Step) (problem string, witness []string, undecided bool) {
+	return SequenceCut(g, steps, nil)
+}
+
+// SequenceCut is Sequence with exempt edges: paths through an edge accepted by
+// cut (say, the one on which the value to write was found to be nil) need not
+// perform the remaining steps.
+func SequenceCut(g *cfgq.Graph, steps []Step, cut func(*cfg.Block, int) bool) (problem string, witness []string, undecided bool) {
 	pts := make([]cfgq.Point, len(steps))
 	for i, s := range steps {
 		ps := g.Points(s.Is)
@@ -531,7 +538,10 @@ func Sequence(g *cfgq.Graph, steps []Step) (problem string, witness []string, un
 		if ok, w := g.Dominated(pts[i], steps[i-1].Is); !ok {
 			return fmt.Sprintf("%q can be reached without %q before it", steps[i].Name, steps[i-1].Name), w, false
 		}
-		w := g.Path(cfgq.Query{From: pts[i-1], After: true, Avoid: steps[i].Is, TargetExit: OkExit(g), AvoidEdge: ErrEdge(g)})
+		errEdge := ErrEdge(g)
+		w := g.Path(cfgq.Query{From: pts[i-1], After: true, Avoid: steps[i].Is, TargetExit: OkExit(g), AvoidEdge: func(b *cfg.Block, s int) bool {
+			return errEdge(b, s) || cut != nil && cut(b, s)
+		}})
 		if w != nil {
 			return fmt.Sprintf("after %q a successful exit is reachable without %q", steps[i-1].Name, steps[i].Name), w, false
 		}
